@@ -570,6 +570,24 @@ fn gen_program2(mode: &str, seed: u64, idx: u64, thorough: bool, batchy: bool) -
             Op::Reopen { .. } => Op::Reopen { front },
             other => other,
         };
+        if mode == "power" && matches!(op, Op::Persist { .. }) && rng.chance(1, 2) {
+            // a single write whose journal item is larger than the journal writer's 8 KiB buffer (incompressible, so
+            // also with journal compression) as the LAST journal write before the durability point
+            if let Some(ks) = model.ks.keys().next().copied() {
+                gen.counter += 1;
+                let big = Op::Insert {
+                    ks,
+                    key: gen.key(),
+                    val: crate::ops::Val {
+                        tag: gen.counter,
+                        len: rng.range(8_300, 20_000) as u32,
+                        kind: 0,
+                    },
+                };
+                model.apply(&big);
+                ops.push(big);
+            }
+        }
         model.apply(&op);
         ops.push(op);
     }
